@@ -323,6 +323,44 @@ def scn_nested_behind_blocking_throttle(ctx):
     return True
 
 
+def scn_callback_submit_full_throttle(ctx):
+    """Executors.sync().with_throttle(1, block=True): a done-callback of F1 submits follow-up work to the
+    same executor while F2 is already queued (the queue holds `count` entries).  With a synchronous
+    delegate F1 resolves - and its callbacks run - on the throttle's own hand-over thread."""
+    from more_executors import Executors
+    ev = ctx.ev
+    ex = Executors.sync().with_throttle(1, block=True)
+    inner = []
+    out = {}
+
+    def cb(_f):
+        ev.add("nested_submit_call")
+        inner.append(ex.submit(lambda: "follow-up"))
+        ev.add("nested_submit_ret")
+
+    def client():
+        out["f1"] = ex.submit(lambda: 1)
+        out["f1"].add_done_callback(cb)
+        out["f2"] = ex.submit(lambda: 2)
+        ev.add("client_done")
+
+    c = spawn("client", client)
+    c.join(LIMIT)
+    ctx.check("outer-submit-returns", not c.is_alive(), "client blocked in submit()")
+    if c.is_alive():
+        return
+    for nm in ("f1", "f2"):
+        wait_done(out[nm], sched.now() + LIMIT)
+    ctx.check("nested-submit-returns", bool(ev.of("nested_submit_ret")) or not ev.of("nested_submit_call"),
+              "submit() from F1's done-callback (run by the hand-over thread) never returned: the thread waits for room in a queue that only it can shorten")
+    ctx.check("queued-futures-complete", out["f2"].done(), "F2 still queued with nothing in flight")
+    ctx.reach("callback-submit-full-throttle")
+    if out["f2"].done():
+        s_ = spawn("closer", lambda: ex.shutdown(wait=True))
+        s_.join(LIMIT)
+    return True
+
+
 SINGLE = ["map", "flat_map", "retry", "poll", "throttle", "throttle_block", "timeout", "cancel_on_shutdown"]
 ASSUMPTIONS = ["a client call that has not returned after 400 virtual seconds (no timer of the library is longer than 30 s; stacks use timeouts of 1000 s only for TimeoutExecutor deadlines) is reported, as is any state in which no thread can run",
                "lock-order cycles: explored directly (preemption-bounded) and, per explored execution, predicted from its lock trace by engine L (z3 query over event orders, then a directed replay); only a deadlock reproduced on the real code is reported",
@@ -352,6 +390,7 @@ def plan(tier, seed):
                 items.append(dict(scenario="nested", params=dict(layers=[ln], base=base, site="callable", extra_client=True), bounds=dict(lpredict=True, P=1 if q else 2)))
         for ln in SINGLE:
             items.append(dict(scenario="clients", params=dict(layers=[ln], base=base, prog="A"), bounds=dict(lpredict=True, P=0 if q else 1)))
+    items.append(dict(scenario="callback_submit_full_throttle", params=dict(), bounds=dict(P=1 if q else 2)))
     items.append(dict(scenario="nested_behind_blocking_throttle", params=dict(), bounds=dict(P=0, max_paths=500 if q else 40000)))
     # cancel of an outer-layer future racing with a cancel of the work below it by someone else
     items.append(dict(scenario="cancelrace", params=dict(layers=["map"], rival="sibling"), bounds=dict(lpredict=True, P=1 if q else 2)))
